@@ -48,7 +48,20 @@ def sought(i):
     return v
 
 
-ABSENT = ["nope", 777, (), 3.25]
+class EqAll:
+    """A wildcard: equal to every object (like unittest.mock.ANY) - 'first vertex that has the attribute at all'."""
+
+    def __eq__(self, other):
+        return True
+
+    def __hash__(self):
+        return 0
+
+    def __repr__(self):
+        return "<EqAll>"
+
+
+ABSENT = ["nope", 777, (), 3.25, EqAll()]
 
 
 def floors(ctx):
